@@ -29,29 +29,53 @@ CALLBACKS = ["call0", "call1", "call", "call_method0", "call_method1", "call_met
 REPO_CALLBACK_FNS = ["to_seq", "sequence", "seq_or_nil", "is_iseq", "is_iseqable", "_compute_seq", "seq"]
 
 
-def _guard_regions(body: str):
-    """(guard name, start offset, end offset) for `let g = self.lock.lock();` in a fn body.
-    The guard lives to the end of the enclosing block or an explicit drop(g)."""
-    out = []
-    for m in re.finditer(r"let\s+(?:mut\s+)?([A-Za-z_][A-Za-z0-9_]*)\s*=\s*self\s*\.\s*lock\s*\.\s*lock\s*\(\s*\)\s*;", body):
-        g = m.group(1)
-        start = m.end()
-        # end of enclosing block
-        depth, k, end = 0, start, len(body)
-        while k < len(body):
-            if body[k] == "{":
-                depth += 1
-            elif body[k] == "}":
-                if depth == 0:
-                    end = k
-                    break
-                depth -= 1
-            k += 1
-        d = re.search(r"\bdrop\s*\(\s*" + re.escape(g) + r"\s*\)", body[start:end])
-        if d:
-            end = start + d.start()
-        out.append((g, start, end))
+def _gil_releasing_acquirers(rf) -> set[str]:
+    """Free functions of seq.rs that take a native mutex *without* waiting for it while holding the
+    GIL: a loop around `try_lock()` that gives the GIL up between attempts (py.detach /
+    allow_threads) and never calls the blocking `.lock()`."""
+    out = set()
+    for f in rf.fns:
+        if f.owner != "":
+            continue
+        b = f.body
+        if re.search(r"\btry_lock\s*\(", b) and re.search(r"\bloop\b|\bwhile\b", b) and re.search(r"\.\s*(detach|allow_threads)\s*\(", b) and not re.search(r"\.\s*lock\s*\(\s*\)", b):
+            out.add(f.name)
     return out
+
+
+def _guard_regions(body: str, acquirers=()):
+    """(guard name, start offset, end offset, blocking?) for `let g = self.lock.lock();` -- or
+    `let g = <acquirer>(py, &self.lock);` -- in a fn body.  The guard lives to the end of the
+    enclosing block or an explicit drop(g)."""
+    out = []
+    pats = [(r"let\s+(?:mut\s+)?([A-Za-z_][A-Za-z0-9_]*)\s*=\s*self\s*\.\s*lock\s*\.\s*lock\s*\(\s*\)\s*;", True)]
+    # ... or through any helper that is handed the mutex: it waits with the GIL held unless it is one
+    # of the recognised GIL-releasing acquirers
+    pats.append((r"let\s+(?:mut\s+)?([A-Za-z_][A-Za-z0-9_]*)\s*=\s*([A-Za-z_][A-Za-z0-9_]*)\s*\([^;]*&\s*self\s*\.\s*lock[^;]*\)\s*;", None))
+    for pat, blocking in pats:
+        for m in re.finditer(pat, body):
+            g = m.group(1)
+            if blocking is None:
+                blocking_here = m.group(2) not in acquirers
+            else:
+                blocking_here = blocking
+            start = m.end()
+            # end of enclosing block
+            depth, k, end = 0, start, len(body)
+            while k < len(body):
+                if body[k] == "{":
+                    depth += 1
+                elif body[k] == "}":
+                    if depth == 0:
+                        end = k
+                        break
+                    depth -= 1
+                k += 1
+            d = re.search(r"\bdrop\s*\(\s*" + re.escape(g) + r"\s*\)", body[start:end])
+            if d:
+                end = start + d.start()
+            out.append((g, start, end, blocking_here))
+    return sorted(out, key=lambda r: r[1])
 
 
 def _callbacks_in(text: str):
@@ -74,33 +98,84 @@ def _stmt_at(body: str, off: int) -> str:
 
 @rule("C06.R1", floor=3)
 def r1_no_callback_under_guard(ctx):
-    """In every fn of impl LazySeq, between `let g = self.lock.lock()` and the end of g's life, no
-    PyO3 call-back (nor a repository function that reaches one) occurs: the mutex would be held
-    while arbitrary Python code runs and the GIL changes hands."""
+    """The deadlock: thread A holds the LazySeq's native mutex and runs Python code under it (the
+    producer, to_seq, a nested lazy seq), the GIL changes hands, thread B reaches the same LazySeq
+    and *blocks on the mutex while holding the GIL* -- A can never get the GIL back.  It takes both
+    halves, so either of two disciplines rules it out, and one of them must hold for impl LazySeq:
+    (i) between taking the guard and the end of its life no PyO3 call-back (nor a repository
+    function that reaches one) occurs, or (ii) no thread ever waits for the mutex with the GIL held:
+    every guard is taken through a helper that loops on try_lock() and gives the GIL up between
+    attempts, and the blocking `self.lock.lock()` is not used at all."""
     rf = ctx.rust(RS)
     fns = rf.fns_of("LazySeq")
     if not fns:
         raise AnalysisError("anchor vanished: impl LazySeq")
+    acquirers = _gil_releasing_acquirers(rf)
+    all_regions = [(f, r) for f in fns for r in _guard_regions(f.body, acquirers)]
+    any_blocking = any(r[3] for _f, r in all_regions)
     seen_guard = 0
     for f in fns:
         ctx.analysed["functions"].add(f"{RS}::LazySeq::{f.name}")
-        regions = _guard_regions(f.body)
+        regions = _guard_regions(f.body, acquirers)
         if not regions:
             continue
         seen_guard += 1
         any_hit = False
-        for g, a, b in regions:
-            for off, name, tok in _callbacks_in(f.body[a:b]):
+        for g, a, b, blocking in regions:
+            hits = _callbacks_in(f.body[a:b])
+            if not any_blocking:
+                continue  # discipline (ii): nobody waits for this mutex with the GIL held
+            for off, name, tok in hits:
                 any_hit = True
                 stmt = _stmt_at(f.body, a + off)
                 line = rf.line_of(f.start + 1 + a + off)
                 ctx.ob("C06.R1", f"{RS}::LazySeq::{f.name}::{tok} in `{stmt}`", RS, line, False,
-                       f"`{tok}` can run Python code while the native guard `{g}` is held: another thread that gets the GIL and touches this LazySeq blocks on the mutex with the GIL held -> interpreter-wide deadlock",
+                       f"`{tok}` can run Python code while the native guard `{g}` is held, and the mutex is (somewhere in impl LazySeq) waited for with the GIL held: another thread that gets the GIL and touches this LazySeq blocks on the mutex with the GIL held -> interpreter-wide deadlock",
                        witness="two threads walking one lazy seq whose producer blocks or yields the GIL")
         if not any_hit:
-            ctx.ob("C06.R1", f"{RS}::LazySeq::{f.name}::guard region free of call-backs", RS, f.line, True)
+            how = "guard region free of call-backs" if any_blocking else "guard taken without waiting under the GIL"
+            ctx.ob("C06.R1", f"{RS}::LazySeq::{f.name}::{how}", RS, f.line, True)
     if seen_guard == 0:
         raise AnalysisError("no guard region found in impl LazySeq: scanner out of date")
+    if not any_blocking:
+        for name in sorted(acquirers):
+            ctx.ob("C06.R1", f"{RS}::{name}::try_lock loop that releases the GIL between attempts", RS, next(f.line for f in rf.fns if f.name == name and f.owner == ""), True)
+
+
+@rule("C06.R8", floor=1)
+def r8_no_callback_under_a_mutable_state_borrow(ctx):
+    """The state of a LazySeq sits in a RefCell inside a *re-entrant* mutex: the same thread may come
+    back to the same LazySeq from Python code the LazySeq itself is running (a producer, or the
+    coercion of its result, that looks at the seq being built).  That re-entrant reader borrows
+    the state; if the outer frame holds a `borrow_mut()` across the call-back, the RefCell panics
+    (PanicException, a BaseException).  So between `let mut x = <..>.borrow_mut();` and the end of
+    x's life no PyO3 call-back and no repository function that reaches one occurs."""
+    rf = ctx.rust(RS)
+    n = 0
+    for f in rf.fns_of("LazySeq"):
+        for m in re.finditer(r"let\s+mut\s+([A-Za-z_][A-Za-z0-9_]*)\s*=\s*[^;]*\.\s*borrow_mut\s*\(\s*\)\s*;", f.body):
+            n += 1
+            g, start = m.group(1), m.end()
+            depth, k, end = 0, start, len(f.body)
+            while k < len(f.body):
+                if f.body[k] == "{":
+                    depth += 1
+                elif f.body[k] == "}":
+                    if depth == 0:
+                        end = k
+                        break
+                    depth -= 1
+                k += 1
+            d = re.search(r"\bdrop\s*\(\s*" + re.escape(g) + r"\s*\)", f.body[start:end])
+            if d:
+                end = start + d.start()
+            hits = [h for h in _callbacks_in(f.body[start:end]) if h[1] not in ("clone_ref",)]
+            ordinal = sum(1 for m2 in re.finditer(r"borrow_mut\s*\(", f.body[:m.start()]))
+            ctx.ob("C06.R8", f"{RS}::LazySeq::{f.name}::mutable borrow #{ordinal} is released before any call-back", RS, rf.line_of(f.start + 1 + m.start()), not hits,
+                   "" if not hits else f"`{hits[0][2]}` in `{_stmt_at(f.body, start + hits[0][0])}` can run Python code while the state is mutably borrowed: a same-thread look at this LazySeq from that code panics (RefCell already mutably borrowed)",
+                   witness="(def s (lazy-seq (eduction (map (fn [x] (realized? s) x)) [1 2 3]))) (vec s) => PanicException")
+    if n == 0:
+        raise AnalysisError("no mutable state borrow found in impl LazySeq: scanner out of date")
 
 
 @rule("C06.R2", floor=1)
@@ -114,7 +189,8 @@ def r2_computing_typestate(ctx):
         for m in re.finditer(r"\*\s*state\s*=\s*LazySeqState\s*::\s*Computing\s*;", f.body):
             n += 1
             rest = f.body[m.end():]
-            nxt = re.search(r"\*\s*state\s*=\s*LazySeqState\s*::\s*(Computed|Realized|Initialized)\b", rest)
+            # a store of a definite state through any place expression: `*state = ..`, `*mutex.borrow_mut() = ..`
+            nxt = re.search(r"\*\s*[A-Za-z_][A-Za-z0-9_]*(?:\s*\.\s*[A-Za-z_][A-Za-z0-9_]*\s*\(\s*\))*\s*=\s*LazySeqState\s*::\s*(Computed|Realized|Initialized)\b", rest)
             window = rest[: nxt.start()] if nxt else rest
             exits = [(x.start(), "?") for x in re.finditer(r"\?\s*[;,)]", window)] + [(x.start(), "return") for x in re.finditer(r"\breturn\b", window)]
             # a scope guard that restores the state on unwind counts as a store
@@ -390,13 +466,18 @@ SELFTEST = [
     {"name": "seeded C06/b: filter walks the raw parameter", "file": CORE, "expect": "C06.R6",
      "old": "    (when-let [coll (seq coll)]\n      (if (pred (first coll))\n        (cons (first coll) (filter pred (rest coll)))\n        (filter pred (rest coll)))))))",
      "new": "    (when (seq coll)\n      (if (pred (first coll))\n        (cons (first coll) (filter pred (rest coll)))\n        (filter pred (rest coll)))))))"},
-    {"name": "callback under guard in a new place", "file": RS, "expect": "C06.R1",
-     "old": "        let mutex = self.lock.lock();\n        let state = mutex.deref().borrow();\n        Ok(PyBool::new(py, matches!(*state, LazySeqState::Realized(_))))",
-     "new": "        let mutex = self.lock.lock();\n        let state = mutex.deref().borrow();\n        let _ = self.meta.getattr(py, \"x\");\n        Ok(PyBool::new(py, matches!(*state, LazySeqState::Realized(_))))"},
+    {"name": "one guard taken by waiting for the mutex with the GIL held (the repaired defect)", "file": RS, "expect": "C06.R1", "nth": 0,
+     "old": "        let mutex = lock_without_gil(py, &self.lock);\n", "new": "        let mutex = self.lock.lock();\n"},
+    {"name": "the helper waits for the mutex after all", "file": RS, "expect": "C06.R1",
+     "old": "        if let Some(g) = lock.try_lock() {\n            return g;\n        }\n        py.detach(std::thread::yield_now);\n", "new": "        return lock.lock();\n"},
+    {"name": "producer failure leaves the cell in Computing (the repaired defect)", "file": RS, "expect": "C06.R2",
+     "old": "                    *mutex.borrow_mut() = LazySeqState::Initialized(gen);\n", "new": ""},
+    {"name": "result coerced under the mutable borrow (the repaired defect)", "file": RS, "expect": "C06.R8",
+     "old": "                let result = to_seq(py, wrapped.bind(py))?.unbind();\n                let mut state = mutex.borrow_mut();\n", "new": "                let mut state = mutex.borrow_mut();\n                let result = to_seq(py, wrapped.bind(py))?.unbind();\n"},
     {"name": "generator called before leaving Initialized", "file": RS, "expect": "C06.R3",
      "old": "            genfn = Some(gen.clone_ref(py));\n            *state = LazySeqState::Computing;\n", "new": "            genfn = Some(gen.clone_ref(py));\n"},
     {"name": "second producer call site", "file": RS, "expect": "C06.R3",
-     "old": "            let obj = gen.call0(py)?;\n", "new": "            let obj = match gen.call0(py) { Ok(o) => o, Err(_) => gen.call0(py)? };\n"},
+     "old": "            let obj = match gen.call0(py) {\n                Ok(obj) => obj,\n", "new": "            let obj = match gen.call0(py) {\n                Ok(obj) => { let _again = gen.call0(py); obj }\n"},
     {"name": "Sequence pulls two elements", "file": RS, "expect": "C06.R4",
      "old": "        let mut it = slf.it.bind(py).clone();\n        match it.next() {", "new": "        let mut it = slf.it.bind(py).clone();\n        let _peek = it.next();\n        match it.next() {"},
     {"name": "Cons no longer frozen", "file": RS, "expect": "C06.R4",
@@ -408,7 +489,7 @@ SELFTEST = [
      "old": "def concat_from_seq(", "new": "def _unused_marker():\n    pass\n\n\ndef concat_from_seq("},
     # twins
     {"name": "twin: guard variable renamed", "file": RS, "expect": None, "count": "all",
-     "old": "let mutex = self.lock.lock();\n        let state = mutex.deref().borrow();", "new": "let guard = self.lock.lock();\n        let state = guard.deref().borrow();"},
+     "old": "let mutex = lock_without_gil(py, &self.lock);\n        let state = mutex.deref().borrow();", "new": "let guard = lock_without_gil(py, &self.lock);\n        let state = guard.deref().borrow();"},
 ]
 # the concat_from_seq mutant above is a placeholder twin (adds an unrelated def): drop it from the mutant list
 SELFTEST = [c for c in SELFTEST if c["name"] != "concat_from_seq realises its input"]
